@@ -7,8 +7,12 @@
 
 and maps what comes out to the canonical Report of M-Wire (`drv_wire decode`, see
 lean/ExaModel/Driver/Wire.lean).  The mapping functions translate ExaBGP's *representation* (JSON
-key names, dotted addresses, "asn:ip" strings, object attributes) into the report syntax; they
-contain no wire decoding.
+key names, dotted addresses, "asn:ip" strings, printed route distinguishers) into the report syntax;
+they contain no wire decoding.  The JSON path reads everything from the event itself (family and
+next-hop keys, NLRI fields): the parsed objects are consulted only to tell a type-0 from a type-2 RD,
+which print alike, and are looked up by the printed text, never by position.  `Session.decode`
+never raises on what the code produced: an event the mapping cannot read comes back as
+`report None` + `unreadable`, which the property modules turn into an oracle failure.
 
 Canonical report (Python side) = dict
     eor   : 'afi.safi' | None
@@ -137,11 +141,16 @@ class Session:
         out: dict = {'kind': 'ok', 'msg': msg, 'text': text}
         try:
             j = json.loads(text)
-            out['json_valid'] = True
-            out['report'] = report_of_json(j['neighbor']['message'], msg)
         except ValueError:
             out['json_valid'] = False
             out['report'] = report_of_objects(msg)
+            return out
+        out['json_valid'] = True
+        try:
+            out['report'] = report_of_json(j['neighbor']['message'], msg)
+        except Exception as e:  # noqa: BLE001 - an event this mapping cannot read is a RESULT (oracle failure), never a harness error
+            out['report'] = None
+            out['unreadable'] = f'{type(e).__name__}: {str(e)[:160]}'
         return out
 
     def store(self, msg: Any) -> None:
@@ -181,9 +190,58 @@ def prefix_fields(text: str) -> tuple[int, str]:
     return plen, packed[: (plen + 7) // 8].hex() or '-'
 
 
-def rd_hex(text: str) -> str:
-    """'65000:1' / '1.2.3.4:5' / '70000:1' (4-byte AS) as printed by RouteDistinguisher._str -> not used; see nlri_of_json."""
-    raise NotImplementedError
+class Unreadable(Exception):
+    """The JSON event has a shape this mapping cannot turn into a Report."""
+
+
+def rd_hints(msg: Any) -> dict[str, set[str]]:
+    """{RD as ExaBGP prints it: {its 8 bytes in hex}} over every NLRI object of the message. Used only to
+    tell a type-0 from a type-2 RD, which print the same way ("N:M"); looked up by the printed text,
+    never by position."""
+    hints: dict[str, set[str]] = {}
+    if msg is None or getattr(msg, 'IS_EOR', False):
+        return hints
+    try:
+        data = msg.data
+        objs = [r.nlri for r in data.announces] + list(data.withdraws)
+    except Exception:  # noqa: BLE001
+        return hints
+    for n in objs:
+        rd = getattr(n, 'rd', None)
+        try:
+            if rd is not None and len(rd):
+                hints.setdefault(rd._str(), set()).add(bytes(rd.pack_rd()).hex())
+        except Exception:  # noqa: BLE001
+            continue
+    return hints
+
+
+def rd_hex(text: str, hints: dict[str, set[str]] | None = None) -> str:
+    """The 8 bytes of a route distinguisher from its printed form ('65000:1', '1.2.3.4:5', '70000:1', '0x…')."""
+    if text.startswith('0x'):
+        raw = bytes.fromhex(text[2:])
+        if len(raw) != 8:
+            raise Unreadable(f'rd {text}')
+        return raw.hex()
+    admin, sep, num = text.rpartition(':')
+    if not sep:
+        raise Unreadable(f'rd {text}')
+    n = int(num)
+    if '.' in admin:
+        return (b'\x00\x01' + ipaddress.IPv4Address(admin).packed + n.to_bytes(2, 'big')).hex()
+    a = int(admin)
+    cands = []
+    if a < 65536 and n < (1 << 32):
+        cands.append((b'\x00\x00' + a.to_bytes(2, 'big') + n.to_bytes(4, 'big')).hex())
+    if a < (1 << 32) and n < 65536:
+        cands.append((b'\x00\x02' + a.to_bytes(4, 'big') + n.to_bytes(2, 'big')).hex())
+    if not cands:
+        raise Unreadable(f'rd {text}')
+    if len(cands) > 1 and hints:
+        known = [c for c in cands if c in hints.get(text, ())]
+        if len(known) == 1:
+            return known[0]
+    return cands[0]
 
 
 def coalesce(segs: list[tuple[int, list[int]]]) -> list[tuple[int, list[int]]]:
@@ -207,20 +265,18 @@ def nlri_key(pid, labels, rd, plen, pfx) -> tuple[str, str]:
     return f'{pid if pid is not None else "-"}:{{}}:{rd or "-"}:{plen}:{pfx}', ls
 
 
-def nlri_of_json(fam: tuple[int, int], j: Any, raw_nlri: Any) -> tuple[str, str]:
-    """One NLRI object of the JSON event -> (key template, labels). `raw_nlri` is the object the event
-    was rendered from: the RD is printed in a type-dependent text form, so its 8 bytes are taken
-    from the object (representation only)."""
+def nlri_of_json(j: Any, hints: dict[str, set[str]] | None = None) -> tuple[str, str]:
+    """One NLRI object of the JSON event -> (key template, labels): every field from the JSON itself."""
     if isinstance(j, str):
         j = {'nlri': j}
+    if not isinstance(j, dict) or 'nlri' not in j:
+        raise Unreadable(f'nlri entry {str(j)[:80]}')
     plen, pfx = prefix_fields(j['nlri'])
     pid = None
     if 'path-information' in j:
         pid = int(ipaddress.ip_address(j['path-information']))
     labels = [lab[0] for lab in j.get('label', [])]
-    rd = ''
-    if 'rd' in j:
-        rd = bytes(raw_nlri.rd.pack_rd()).hex()
+    rd = rd_hex(j['rd'], hints) if 'rd' in j else ''
     return nlri_key(pid, labels, rd, plen, pfx)
 
 
@@ -299,34 +355,30 @@ def report_of_json(m: dict, msg: Any) -> dict:
     if 'eor' in m:
         rep['eor'] = f'{AFI_NAME.get(m["eor"]["afi"], m["eor"]["afi"])}.{SAFI_NAME.get(m["eor"]["safi"], m["eor"]["safi"])}'
         return rep
+    if 'update' not in m or not isinstance(m['update'], dict):
+        raise Unreadable(f'message keys {sorted(m)[:6]}')
     u = m['update']
     rep['attrs'] = attrs_of_json(u.get('attribute', {}))
-    data = msg.data
-    ann_objs = {}
-    for routed in data.announces:
-        ann_objs.setdefault((int(routed.nlri.afi), int(routed.nlri.safi)), []).append(routed.nlri)
-    wd_objs = {}
-    for n in data.withdraws:
-        wd_objs.setdefault((int(n.afi), int(n.safi)), []).append(n)
+    hints = rd_hints(msg)
+    # family, next hop and every NLRI field are read from the event alone: where the event files a
+    # route is exactly what is being checked
     for famname, per_nh in u.get('announce', {}).items():
         fam = fam_of_name(famname)
         if fam is None:
             rep['other_families'].append(famname)
             continue
-        objs = iter(ann_objs.get(fam, []))
         for nh, nlris in per_nh.items():
             nhx = ip_hex(nh) if nh not in ('null', '') else '-'
             for j in nlris:
-                key, ls = nlri_of_json(fam, j, next(objs, None))
+                key, ls = nlri_of_json(j, hints)
                 rep['ann'].append(f'{fam[0]}.{fam[1]}/{nhx}/' + key.format(ls))
     for famname, nlris in u.get('withdraw', {}).items():
         fam = fam_of_name(famname)
         if fam is None:
             rep['other_families'].append(famname)
             continue
-        objs = iter(wd_objs.get(fam, []))
         for j in nlris:
-            key, _ = nlri_of_json(fam, j, next(objs, None))
+            key, _ = nlri_of_json(j, hints)
             rep['wd'].append(f'{fam[0]}.{fam[1]}/' + key.format('-'))
     rep['ann'] = sorted(set(rep['ann']))
     rep['wd'] = sorted(set(rep['wd']))
